@@ -334,30 +334,61 @@ def check_kernels(field, fns=None, timeout=None):
             return z3.sat
         solvers = {}
         def solve(extra, goal_neg):
-            # one incremental solver per attempt (base constraints asserted once, each query under push/pop: 10-20x faster than
-            # fresh solvers and steadier).  z3's LIA run time still varies from run to run, so an `unknown` is retried on a
-            # solver with another seed and a doubled cap before the obligation is called inconclusive.
-            t0 = time.time(); r = z3.unknown
-            # restart strategy: the typical query needs under a minute, an unlucky run of the same query ten times longer - short caps and
-            # fresh seeds first, long caps last
-            plan = [(60000, 0), (60000, 7), (120000, 13), (240000, 21), (480000, 34)] if common.tier() == 'quick' else [(120000, 0), (120000, 7), (240000, 13), (480000, 21), (1200000, 34)]
-            for k, (cap, sd) in enumerate(plan):
-                if k not in solvers:
-                    s_ = z3.Solver(); s_.set('random_seed', sd); s_.add(E.cons); s_.add(pre); solvers[k] = s_
-                s_ = solvers[k]; s_.set('timeout', int(cap))
-                s_.push(); s_.add(extra); s_.add(goal_neg)
-                t1 = time.time(); r = s_.check()
-                if os.environ.get('DV_FIAT_RLIMIT'):
-                    try: print(f'  [rl] {name} {r} {time.time() - t1:.1f}s rlimit={dict((k, v) for k, v in s_.statistics())["rlimit count"]}', file=sys.stderr, flush=True)
-                    except Exception as e_: print('  [rl] n/a', e_, file=sys.stderr)
-                if os.environ.get('DV_FIAT_DEBUG') or (os.environ.get('DV_TIMING') and time.time() - t1 > 40): print(f'  [q] {name} attempt {k} seed {sd}: {r} {time.time() - t1:.1f}s  goal={str(goal_neg)[:60]!r}', file=sys.stderr, flush=True)
-                if r == z3.sat:
-                    m_ = s_.model()
-                    gv = lambda L: sum((m_.eval(L[i], model_completion=True).as_long()) << (32 * i) for i in range(n))
-                    last_model[:] = [gv(A), gv(B)]
-                s_.pop()
-                if r != z3.unknown: break
-            return r, time.time() - t0
+            # first attempt: the incremental solver (base constraints asserted once, the query under push/pop: 10-20x faster than fresh
+            # solvers and steady for most queries).  z3's LIA run time on these sets is chaotic (the same query: 5 s or 10 minutes), so an
+            # `unknown` after the first cap goes to a portfolio: three fresh solvers with different seeds in parallel threads (own z3
+            # contexts), first definite answer wins, the others are interrupted.
+            t0 = time.time()
+            quick = common.tier() == 'quick'
+            if 0 not in solvers:
+                s_ = z3.Solver(); s_.set('random_seed', 0); s_.add(E.cons); s_.add(pre); solvers[0] = s_
+            s_ = solvers[0]; s_.set('timeout', 25000 if quick else 120000)
+            s_.push(); s_.add(extra); s_.add(goal_neg)
+            t1 = time.time(); r = s_.check()
+            if os.environ.get('DV_FIAT_DEBUG') or (os.environ.get('DV_TIMING') and time.time() - t1 > 40): print(f'  [q] {name} first attempt: {r} {time.time() - t1:.1f}s  goal={str(goal_neg)[:60]!r}', file=sys.stderr, flush=True)
+            if r == z3.sat:
+                m_ = s_.model()
+                gv = lambda L: sum((m_.eval(L[i], model_completion=True).as_long()) << (32 * i) for i in range(n))
+                last_model[:] = [gv(A), gv(B)]
+            s_.pop()
+            if r != z3.unknown: return r, time.time() - t0
+            import threading
+            asserts = list(E.cons) + list(pre) + list(extra) + [goal_neg]
+            res = {}; ctxs = {}; lock = threading.Lock()
+            cap = 300000 if quick else 1200000
+            def worker(k, sd):
+                try:
+                    ctx = z3.Context(); ctxs[k] = ctx
+                    sv = z3.Solver(ctx=ctx); sv.set('timeout', cap); sv.set('random_seed', sd)
+                    for a_ in asserts: sv.add(a_.translate(ctx))
+                    rr = sv.check()
+                    val = None
+                    if rr == z3.sat:
+                        mm = sv.model()
+                        gv2 = lambda L: sum((mm.eval(L[i].translate(ctx), model_completion=True).as_long()) << (32 * i) for i in range(n))
+                        val = [gv2(A), gv2(B)]
+                    with lock: res[k] = (str(rr), val)
+                except Exception as e_:
+                    with lock: res[k] = ('unknown', None)
+            ths = [threading.Thread(target=worker, args=(k, sd), daemon=True) for k, sd in enumerate((7, 13, 21))]
+            for t_ in ths: t_.start()
+            final = 'unknown'; val = None
+            while any(t_.is_alive() for t_ in ths) or len(res) < len(ths):
+                with lock: done = dict(res)
+                hit = next(((k, v) for k, v in done.items() if v[0] in ('unsat', 'sat')), None)
+                if hit: final, val = hit[1]; break
+                if len(done) == len(ths): break
+                time.sleep(0.5)
+            else:
+                hit = next(((k, v) for k, v in res.items() if v[0] in ('unsat', 'sat')), None)
+                if hit: final, val = hit[1]
+            for c_ in list(ctxs.values()):
+                try: c_.interrupt()
+                except Exception: pass
+            for t_ in ths: t_.join(timeout=20)
+            if os.environ.get('DV_FIAT_DEBUG') or os.environ.get('DV_TIMING'): print(f'  [q] {name} portfolio: {final} after {time.time() - t0:.1f}s  goal={str(goal_neg)[:60]!r}', file=sys.stderr, flush=True)
+            if final == 'sat' and val: last_model[:] = val
+            return {'unsat': z3.unsat, 'sat': z3.sat}.get(final, z3.unknown), time.time() - t0
         last_model = []
         def witness():
             """operands of the last sat model, kept only if the concrete evaluation of the source disagrees with the specification"""
